@@ -47,6 +47,73 @@ def classify(cond, BOARD_LOOP, MV):
     return 'other: ' + sh(c, 160)
 
 
+ITER = 'core::iter::traits::iterator::Iterator::'
+
+
+def count_idiom(ctx, s, true_blk):
+    """The counting form of the repetition search:  `list[..last].iter()<adapters>.filter(|x| *x == list[last]).count() >= 2`.
+    Entries are (hash, moves) with the side to move folded into the hash, so entries at odd distance from the last one
+    never compare equal and a position cannot recur at distance 2; the adapters are sound iff the distances examined
+    contain every even distance >= 4, for every list length.  Returns (verdict, message, line) or None if not this form."""
+    cfg = s.cfg
+    for st in s.stores:
+        if not (st.get('local') and st['target'] == ('ref', ('l', 0), ())):
+            continue
+        if st['blk'] in cfg.reachable_from(true_blk) and cfg.dominates(true_blk, st['blk']):
+            continue
+        v = norm(st['value'])
+        if v[0] != 'bin' or v[1] not in ('Ge', 'Gt') or v[3][0] != 'int':
+            continue
+        cnt = v[2]
+        if not (cnt[0] == 'call' and cnt[1].endswith('::count') and cnt[2] and cnt[2][0][0] == 'call' and cnt[2][0][1] == ITER + 'filter'):
+            continue
+        need = v[3][1] + (1 if v[1] == 'Gt' else 0)
+        src, clo = cnt[2][0][2]
+        chain = []
+        while src[0] == 'call' and src[1].startswith(ITER) and src[1][len(ITER):] in ('rev', 'skip', 'step_by', 'take'):
+            chain.append((src[1][len(ITER):], src[2][1] if len(src[2]) > 1 else None))
+            src = src[2][0]
+        chain.reverse()
+        LEN = call('alloc::vec::Vec::<T, A>::len', V('l'))
+        LAST = ('bin', 'Sub', LEN, ('int', 1, 'usize'))
+        m = match(call('core::slice::<impl [T]>::iter', ('mem', ('h', call('<alloc::vec::Vec<T, A> as core::ops::index::Index<I>>::index', V('l'),
+                       ('agg', 'core::ops::range::RangeTo', 'RangeTo', (('end', LAST),)))))), src)
+        if m is None:
+            return ('inconclusive', 'counting form: the counted sequence is not `list[..len-1].iter()` followed by rev/skip/step_by: ' + sh(src, 160), st['line'])
+        if clo[0] != 'closure' or len(clo[2]) != 1 or match(('index', m['l'], ('bin', 'Sub', call('alloc::vec::Vec::<T, A>::len', m['l']), ('int', 1, 'usize'))), clo[2][0]) is None:
+            return ('inconclusive', 'counting form: the filter closure does not capture exactly the last entry: ' + sh(clo, 160), st['line'])
+        cs = ctx.an().summary(clo[1])
+        r = norm(cs.ret) if cs is not None else None
+        if r is None or not (r[0] == 'call' and r[1].endswith('::eq') and 'PartialEq' in r[1] and
+                             {sh(a) for a in r[2]} == {sh(('param', 2)), sh(('mem', ('h', ('field', ('mem', ('p', 1)), '0'))))}):
+            return ('inconclusive', 'counting form: the filter predicate is not `entry == last`: ' + (sh(r, 160) if r else '?'), st['line'])
+        # distances examined: list index last-d  <->  distance d >= 1
+        rev = False
+        first, step, ok_chain = 1, 1, True
+        for name, arg in chain:
+            if name == 'rev' and first == 1 and step == 1 and not rev:
+                rev = True
+            elif name == 'skip' and arg is not None and arg[0] == 'int':
+                first += arg[1] * step
+            elif name == 'step_by' and arg is not None and arg[0] == 'int' and arg[1] >= 1:
+                step *= arg[1]
+            else:
+                ok_chain = False
+        if not ok_chain:
+            return ('inconclusive', 'counting form: adapter chain %s not understood' % [n for n, _ in chain], st['line'])
+        if not rev and (first != 1 or step != 1):
+            return ('violation', 'repetition count walks the earlier entries from the oldest with skip/step (%s): which distances from the '
+                    'current position are examined depends on the list length, so earlier occurrences are missed' % [n for n, _ in chain], st['line'])
+        missed = [d for d in range(4, 4 + 2 * max(step, 2) + first, 2) if d < first or (d - first) % step != 0]
+        if missed:
+            return ('violation', 'repetition count examines only the entries at distance %d, %d, %d, ... before the current one: an earlier '
+                    'occurrence at distance %d is never compared, so a third occurrence can go undetected' % (first, first + step, first + 2 * step, missed[0]), st['line'])
+        if need != 2:
+            return ('violation', 'repetition is claimed when %d earlier entries equal the current one; threefold repetition needs exactly 2 earlier occurrences' % need, st['line'])
+        return ('ok', 'repetition: claimed iff at least two of the earlier entries (distances %d, %d, ... cover every even distance >= 4) equal the last entry' % (first, first + step), st['line'])
+    return None
+
+
 def run(ctx):
     s = summary(ctx, KEY, 'C11.R1')
     if s is None:
@@ -230,8 +297,18 @@ def run(ctx):
         if st.get('local') and st['target'] == ('ref', ('l', 0), ()) and norm(st['value']) == ('int', 1, 'bool') and \
                 not (st['blk'] in cfg.reachable_from(true_blk) and cfg.dominates(true_blk, st['blk'])):
             reps.append(st)
-    if len(reps) != 1:
-        ctx.violation('C11.R3', KEY + ':repetition-return', 'expected exactly one repetition `return true`, found %d' % len(reps), w)
+    idiom = count_idiom(ctx, s, true_blk) if len(reps) != 1 else None
+    if idiom is not None:
+        verdict, msg, line = idiom
+        if verdict == 'ok':
+            ctx.ok('C11.R3', msg, where(body, line))
+        elif verdict == 'violation':
+            ctx.violation('C11.R3', KEY + ':two-earlier', msg, where(body, line))
+        else:
+            ctx.inconclusive('C11.R3', msg + ' ' + where(body, line))
+    elif len(reps) != 1:
+        ctx.inconclusive('C11.R3', 'the repetition search is in neither recognised form (nested index loops with one `return true`, '
+                         'or a filtered count of earlier entries compared with 2); found %d constant `return true` stores %s' % (len(reps), w))
     else:
         st = reps[0]
         inner = [l for l in for_loops(s) if st['blk'] in l['blocks'] and l['header'] != h]
